@@ -28,7 +28,9 @@ finally:
 meta['confirmed'] = bool(meta.get('applies_cleanly') and meta.get('baseline_ok') and meta.get('demo_without_change_exit') == 0 and meta.get('demo_with_change_exit') not in (0, None))
 # run our check against it (exclusive lock on /repo: no other check may read it while it is patched)
 import fcntl
+gate = open('/verif/.repo.gate', 'w'); fcntl.flock(gate, fcntl.LOCK_EX)
 lockf = open('/verif/.repo.lock', 'w'); fcntl.flock(lockf, fcntl.LOCK_EX)
+fcntl.flock(gate, fcntl.LOCK_UN)
 assert sh('git -C /repo status --porcelain').stdout.strip() == '', '/repo not clean'
 t0 = time.time()
 try:
